@@ -12,7 +12,8 @@ router i P…                   mount the registry under these prefixes    (no o
 setroot i J | regv i P J | regf i P tag fail|- | mergeroot i J | mergeat i P J
 read i P | disp i P J|-       -> i ok J cN | i err Variant code cN     (N = calls logged so far)
 dump i                        -> i dump J(root) J(funcs) J(log)
-req i P fmt J|-               -> i none | i ok J cN | i err code cN    (through the Router mount)
+req i P fmt hex|- J|!|-       -> i none | i ok J cN | i err code cN    (through the Router mount; format code,
+                                 body bytes, what the dependency decoder gave for them)
 jp i P                        -> i J(array of tokens)                   (repe::parse_json_pointer)
 jpe i J P                     -> i some J | i none                      (repe::eval_json_pointer)
 enum i dom len                -> i a b hash   (one line per 2-op prefix; digest of the subtree)
@@ -244,19 +245,21 @@ def concCheck (ws : List String) : Option Bool := do
 
 /-! ### one line -/
 
-def mountObs (st : St) (path : List Char) (fmt : String) (body : Option J) : St × String :=
-  match mountPointer st.prefixes path with
+def codeOf (e : RErr) : Nat := (e.code Gen.Registry.registryErrorCode Gen.Registry.errorCodes).getD 0
+def notFoundCode : Nat := (lookupStr "MethodNotFound" Gen.Registry.errorCodes).getD 0
+
+/-- `recorded` = what the dependency's decoder gave for these bytes (from the op line). -/
+def mountObs (st : St) (path : List Char) (fmt : Nat) (body : Bytes) (recorded : Option J) : St × String :=
+  let dec : Decoders := ⟨fun _ => recorded, fun _ => recorded, fun _ => match recorded with
+    | some (.str s) => some s
+    | _ => none⟩
+  match st.reg.mountHandle dec codeOf notFoundCode recheck st.prefixes path fmt body with
   | none => (st, "none")
-  | some none => (st, "err 6 c" ++ toString st.reg.log.length)
-  | some (some ptr) =>
-    if (fmt = "badjson" ∨ fmt = "badfmt") ∧ body.isSome then
-      (st, "err 4 c" ++ toString st.reg.log.length)
-    else
-      let (reg', r) := st.reg.dispatch recheck ptr body
-      let s := match r with
-        | .ok v => "ok " ++ v.show
-        | .error e => "err " ++ showCode e
-      ({ st with reg := reg' }, s ++ " c" ++ toString reg'.log.length)
+  | some (reg', resp) =>
+    let s := match resp.ec, resp.body with
+      | 0, some v => "ok " ++ v.show
+      | ec, _ => "err " ++ toString ec
+    ({ st with reg := reg' }, s ++ " c" ++ toString reg'.log.length)
 
 def step (st : St) (ws : List String) : St × String :=
   match ws with
@@ -266,12 +269,13 @@ def step (st : St) (ws : List String) : St × String :=
     | some ps => ({ st with prefixes := ps }, "")
     | none => (st, "bad-op")
   | ["dump", idx] => (st, joinSp [idx, "dump", dumpWords st.reg])
-  | ["req", idx, p, fmt, j] =>
-    match parseStrWord p, (if j = "-" then some none else (J.parse j).map some) with
-    | some path, some body =>
-      let (st', s) := mountObs st path fmt body
+  | ["req", idx, p, fmt, hex, dec] =>
+    match parseStrWord p, fmt.toNat?, bytesOfHex hex,
+        (if dec = "!" ∨ dec = "-" then some none else (J.parse dec).map some) with
+    | some path, some fmt, some body, some recorded =>
+      let (st', s) := mountObs st path fmt body recorded
       (st', idx ++ " " ++ s)
-    | _, _ => (st, idx ++ " bad-op")
+    | _, _, _, _ => (st, idx ++ " bad-op")
   | ["jp", idx, p] =>
     match parseStrWord p with
     | some p => (st, idx ++ " " ++ (J.arr ((jpParse p).map J.str)).show)
